@@ -59,8 +59,8 @@ static void one_mf(int e, const std::vector<double> &par, const std::vector<doub
     {
         a_real v = (a_real)b[i];
         xs.push_back(v);
-        xs.push_back(std::nextafter(v, (a_real)1e30));
-        xs.push_back(std::nextafter(v, (a_real)-1e30));
+        xs.push_back(std::nextafter(v, (a_real)INFINITY));
+        xs.push_back(std::nextafter(v, (a_real)-INFINITY));
         if (i + 1 < b.size() && b[i + 1] > b[i])
         {
             for (double f : {0.25, 0.5, 0.75}) { xs.push_back((a_real)(b[i] + f * (b[i + 1] - b[i]))); }
@@ -164,6 +164,24 @@ static void membership(bool thorough)
             one_mf(A_MF_GAUSS2, {huge, c0, huge, c0 + 1}, {c0 - huge, c0, c0 + 1, c0 + 1 + huge});
             one_mf(A_MF_GBELL, {tiny, 2, c0}, {c0 - tiny, c0, c0 + tiny});
             one_mf(A_MF_GBELL, {huge, 2, c0}, {c0 - huge, c0, c0 + huge});
+        }
+    }
+    // parameters near the top of the real type's range, widths ordinary relative to their magnitude: a sum of two parameters overflows
+    // although every difference and every quotient of differences is representable (both signs)
+    {
+        const double T = EPS == (double)FLT_EPSILON ? 1e38 : 1e308;
+        for (double sg : {1.0, -1.0})
+        {
+            if (!R.shard.mine(item++)) { continue; }
+            double q[4] = {1.0 * T, 1.2 * T, 1.4 * T, 1.6 * T};
+            if (sg < 0) { for (int i = 0; i < 4; ++i) { q[i] = -(1.0 + 0.2 * (3 - i)) * T; } }
+            one_mf(A_MF_LINS, {q[0], q[2]}, {q[0], q[2]});
+            one_mf(A_MF_LINZ, {q[0], q[2]}, {q[0], q[2]});
+            one_mf(A_MF_S, {q[0], q[2]}, {q[0], q[0] / 2 + q[2] / 2, q[2]});
+            one_mf(A_MF_Z, {q[0], q[2]}, {q[0], q[0] / 2 + q[2] / 2, q[2]});
+            one_mf(A_MF_TRI, {q[0], q[1], q[3]}, {q[0], q[1], q[3]});
+            one_mf(A_MF_TRAP, {q[0], q[1], q[2], q[3]}, {q[0], q[1], q[2], q[3]});
+            one_mf(A_MF_PI, {q[0], q[1], q[2], q[3]}, {q[0], q[0] / 2 + q[1] / 2, q[1], q[2], q[2] / 2 + q[3] / 2, q[3]});
         }
     }
     for (double a1 : SL)
